@@ -10,6 +10,8 @@
      - every retransmission (same identifier, before PUBREL) is answered PUBREC 0x91, a failure code
        (pinned by TestServerProcessPacketPublishQos2PacketIDInUse)                 KF_C08_retransmit_0x91
      - a retransmission arriving with the receive quota at 0 is answered DISCONNECT 0x93 KF_C08_limit_on_retransmit
+     - when the write of the PUBREC fails (broken connection) the PUBLISH is already recorded but not yet forwarded;
+       the retransmission is refused / the exchange completes and the message is never forwarded  KF_C08_recorded_not_forwarded
      - an acknowledgement of a broker identifier equal to the identifier of the open exchange removes or
        replaces its record (one id-keyed map), the next retransmission is forwarded again     KF_C08_cross_ack
    Outside these the exactly-once clause is proved for all histories (C08_modulo_findings). *)
@@ -73,6 +75,15 @@ Proof.
   vm_compute. reflexivity.
 Qed.
 
+(* fault injection (the broker's write of the first PUBREC fails): the PUBLISH is recorded, never forwarded, and the
+   exchange completes on the next connection - the message is lost *)
+Theorem C08_refuted_not_forwarded : exists c h,
+  model_verdict_f 8 c h = Some (3, Some (tag "KF_C08_recorded_not_forwarded")).
+Proof.
+  exists (wcfg 2 8), [(w_connect, false); (w_pub 2 5 false 1, true); (w_connect, false); (w_ack T_PUBREL 5, false)].
+  vm_compute. reflexivity.
+Qed.
+
 (* non-vacuity: a state and a continuation (two retransmissions around a reconnection, other traffic) that
    meet the hypotheses, and the count computed *)
 Definition c08_s0 : st := fst (run (wcfg 2 8) init_st [w_connect]).
@@ -99,3 +110,4 @@ Print Assumptions C08_retransmission_answered_partial.
 Print Assumptions C08_refuted_retransmit.
 Print Assumptions C08_refuted_limit.
 Print Assumptions C08_refuted_cross_ack.
+Print Assumptions C08_refuted_not_forwarded.
